@@ -3,6 +3,7 @@
 # Builds the harness with a Go overlay per mutation of /repo (nothing in /repo is touched), runs the quick tier,
 # pipes ops.txt through drv_exec and reports tie-disagreeing cases and oracle FAIL keys. Work dir: /tmp/exec-selftest (delete after use).
 import json, os, subprocess, sys
+NCORPUS = 100
 MUTS = [
  ("M1-wrap-ignores-notify-flag", "/repo/pkg/core/interop/contract/call.go",
   "f&(callflag.All^callflag.ReadOnly) != 0 //", "f&callflag.WriteStates != 0 //"),
@@ -53,9 +54,90 @@ MUTS = [
   "	contract = *oldcontract // Make a copy, don't ruin (potentially) cached contract.\n", "	contract = *oldcontract // Make a copy, don't ruin (potentially) cached contract.\n	oldcontract.UpdateCounter++\n	contract.UpdateCounter--\n"),
  ("M24-neo-cache-votesChanged-through-ro", "/repo/pkg/core/native/native_neo.go",
   "	cache := d.GetRWCache(n.ID).(*NeoCache)\n	cache.votesChanged = true\n	if acc.VoteTo != nil {", "	cache := d.GetROCache(n.ID).(*NeoCache)\n	cache.votesChanged = true\n	if acc.VoteTo != nil {"),
+ ("N1-notification-limit-counts-emitted-not-kept", "/repo/pkg/core/interop/context.go",
+  "		if ic.Trigger == trigger.Application && len(ic.Notifications) == MaxNotificationCount {", "		ic.Invocations[util.Uint160{0xee}]++\n		if ic.Trigger == trigger.Application && ic.Invocations[util.Uint160{0xee}] > MaxNotificationCount {"),
+ ("N2-notification-limit-off-by-one", "/repo/pkg/core/interop/context.go",
+  "len(ic.Notifications) == MaxNotificationCount {", "len(ic.Notifications) == MaxNotificationCount-1 {"),
+ ("N3-destroy-erases-before-blocking", "/repo/pkg/core/native/management.go",
+  "	m.destroyInternalDeferrable(ic, sis, popArgsPushRes, true)", "	m.destroyInternalDeferrable(ic, sis, popArgsPushRes, false)"),
+ ("N4-unregister-keeps-empty-candidate-record", "/repo/pkg/core/native/native_neo.go",
+  "	ok := n.dropCandidateIfZero(ic.DAO, cache, pub, c)\n", "	ok := false\n"),
+ ("N5-register-event-condition-inverted", "/repo/pkg/core/native/native_neo.go",
+  "		emitEvent = !c.Registered\n", "		emitEvent = c.Registered\n"),
+ ("N6-withdraw-keeps-deposit", "/repo/pkg/core/native/notary.go",
+  "	n.removeDepositFor(ic.DAO, from)\n", ""),
+ ("N7-lock-accepts-earlier-till", "/repo/pkg/core/native/notary.go",
+  "	if till < deposit.Till {\n		return stackitem.NewBool(false)\n	}\n	deposit.Till = till", "	deposit.Till = till"),
+ ("N8-syscall-error-becomes-catchable", "/repo/pkg/vm/vm.go",
+  "				panic(fmt.Sprintf(\"%s failed: %s\", iName, err))", "				v.throw(stackitem.NewByteArray([]byte(fmt.Sprintf(\"%s failed: %s\", iName, err))))\n				break"),
+ ("N9-update-nef-not-stored-when-manifest-given", "/repo/pkg/core/native/management.go",
+  "	if neff != nil {\n		contract.NEF = *neff\n	}", "	if neff != nil && manif == nil {\n		contract.NEF = *neff\n	}"),
+ ("N10-oracle-request-id-list-not-updated-on-second", "/repo/pkg/core/native/oracle.go",
+  "	*lst = append(*lst, id)\n	return d.PutStorageConvertible(o.ID, key, lst)", "	if len(*lst) > 0 {\n		return nil\n	}\n	*lst = append(*lst, id)\n	return d.PutStorageConvertible(o.ID, key, lst)"),
+ ("N11-vote-allows-unregistered-candidate", "/repo/pkg/core/native/native_neo.go",
+  "		if !cd.Registered {\n			return false, errors.New(\"validator must be registered\")\n		}", "		_ = cd"),
+ ("N12-onunload-restore-skipped-on-rollback", "/repo/pkg/core/interop/contract/call.go",
+  "			ic.DAO = baseDAO\n		}\n		if callFromNative", "			if commit || ic.DAO != baseDAO && len(ic.Notifications) > baseNtfCount {\n				ic.DAO = baseDAO\n			}\n		}\n		if callFromNative"),
+ ("N13-static-token-calls-not-wrapped", "/repo/pkg/core/interop/contract/call.go",
+  "	wrapped := ic.VM.ContractHasTryBlock() && //", "	wrapped := isDynamic && ic.VM.ContractHasTryBlock() && //"),
+ ("N14-token-call-ignores-token-flags", "/repo/pkg/core/interop/contract/call.go",
+  "	return callInternal(ic, cs, md, tok.CallFlag, tok.HasReturn, args, false)", "	return callInternal(ic, cs, md, callflag.All, tok.HasReturn, args, false)"),
+ ("N15-calls-from-natives-not-wrapped", "/repo/pkg/core/interop/contract/call.go",
+  "	wrapped := ic.VM.ContractHasTryBlock() && //", "	wrapped := !callFromNative && ic.VM.ContractHasTryBlock() && //"),
 ]
+import re
+def table_check(d):
+    """regenerated-table obligations under the overlay, without touching lean/NeoModel/Generated (other checks
+    regenerate it concurrently): extract into d/gen, then compile generated table + obligation file as one scratch file."""
+    gen = d + "/gen"; os.makedirs(gen, exist_ok=True)
+    e = dict(env, VERIF_GO_OVERLAY=d + "/ov.json")
+    r = subprocess.run(["/tmp/exec-selftest/extract", "-repo", "/repo", "-out", gen], env=e, capture_output=True, text=True)
+    if r.returncode != 0:
+        return ["extractor: " + (r.stdout + r.stderr).strip()[-200:]]
+    bad = []
+    tag = re.sub(r"\W", "", os.path.basename(d))[:20]
+    # 1. CacheCopy + Proofs/ExecCacheCopy.lean
+    body = open("/verif/lean/NeoModel/Proofs/ExecCacheCopy.lean").read().replace("import NeoModel.Generated.CacheCopy\n", "")
+    src = open(gen + "/CacheCopy.lean").read() + "\n" + body
+    # 2. ExcFacts / ExecFacts + the statements of Props/C04.lean
+    props = open("/verif/lean/NeoModel/Props/C04.lean").read()
+    def thm(name):
+        i = props.index("theorem " + name); j = props.index("by decide", i)
+        return props[i:j + len("by decide")]
+    src2 = ("import NeoModel.Model.Exec\nimport NeoModel.Proofs.ExecFacts\n" + open(gen + "/ExcFacts.lean").read() +
+            "\nnamespace NeoModel.Exec\nopen NeoModel.Generated in\n" + thm("facts_exceptions") + "\nend NeoModel.Exec\n")
+    for nm, text in (("Cache", src), ("Exc", src2)):
+        f = "/verif/lean/Scratch/Sel%s%s.lean" % (nm, tag)
+        open(f, "w").write(text)
+        r = subprocess.run(["lake", "env", "lean", f], cwd="/verif/lean", env=env, capture_output=True, text=True)
+        os.remove(f)
+        out = r.stdout + r.stderr
+        for m in re.finditer(r"error", out):
+            pass
+        if r.returncode != 0:
+            names = set(re.findall(r"theorem (\w+)", text))
+            hit = [n for n in names if n in out] or ["(see output)"]
+            first = [l for l in out.split("\n") if "error" in l][:2]
+            bad.append("%s: %s" % (nm, "; ".join(x[:160] for x in first)))
+    # ExecFacts differences are plain text differences of the table (its theorems compare literals)
+    a, b = open(gen + "/ExecFacts.lean").read(), open("/verif/lean/NeoModel/Generated/ExecFacts.lean").read()
+    if a != b:
+        bad.append("ExecFacts table differs from the clean one")
+    return bad
+
 only = sys.argv[1:] 
 env = dict(os.environ, GOFLAGS="-mod=mod", GOPROXY="off")
+os.makedirs("/tmp/exec-selftest", exist_ok=True)
+# a private extractor with the C04 tables only (other table files may be work in progress of their owners)
+import shutil
+xd = "/verif/harness/cmd/exec/selftest/xtr"
+shutil.rmtree(xd, ignore_errors=True); os.makedirs(xd)
+for f in ("main.go", "cachecopy.go", "excfacts.go", "execfacts.go"):
+    shutil.copy("/verif/harness/cmd/extract/" + f, xd + "/" + f)
+try:
+    subprocess.run(["go", "build", "-tags", "verif", "-o", "/tmp/exec-selftest/extract", "./cmd/exec/selftest/xtr"], cwd="/verif/harness", env=env, check=True)
+finally:
+    shutil.rmtree(xd, ignore_errors=True)
 for name, path, old, new in MUTS:
     if only and not any(name.startswith(o) for o in only): continue
     src = open(path).read()
@@ -81,4 +163,5 @@ for name, path, old, new in MUTS:
     keys = {}
     for l in open(d + "/out/oracle.txt"):
         k = l.split()[1]; keys[k] = keys.get(k, 0) + 1
-    print("%-45s tie-disagreeing cases: %3d (corpus %d)  oracle: %s" % (name, len(cases), len([c for c in cases if c < 58]), keys))
+    tb = table_check(d)
+    print("%-45s tie-disagreeing cases: %3d (corpus %d)  oracle: %s  tables: %s" % (name, len(cases), len([c for c in cases if c < NCORPUS]), keys, tb or "ok"))
